@@ -40,6 +40,7 @@ type proc struct {
 	curTO  int
 	tactic string
 	lazy   func() (*proc, error)
+	oneshot bool
 }
 
 const doneMarker = "<<verif-done>>"
@@ -96,7 +97,7 @@ func (p *proc) roundtrip(text string) ([]string, error) {
 }
 
 func (p *proc) close() {
-	if p.lazy != nil {
+	if p.lazy != nil || p.oneshot {
 		return
 	}
 	if p.cmd != nil && p.cmd.Process != nil {
@@ -180,11 +181,9 @@ func NewSolver(ctx *Ctx, opt Options) (*Solver, error) {
 	}
 	s.procs = []*proc{z3}
 	if !opt.Z3Only {
-		// cvc5 is started lazily, on the first query z3 cannot decide quickly
-		cv := &proc{name: "cvc5", lazy: func() (*proc, error) {
-			return startProc("cvc5", []string{"cvc5", "--incremental", "--lang=smt2", "--produce-models", "--global-declarations", "--solve-bv-as-int=sum"},
-				"(set-logic ALL)\n", nil)
-		}}
+		// cvc5 runs one process per query on a standalone script (its define-funs do not
+		// survive pop even with --global-declarations); it is only a fallback.
+		cv := &proc{name: "cvc5", oneshot: true}
 		cv.setTO = func(ms int) string { return fmt.Sprintf("(set-option :tlimit-per %d)\n", ms) }
 		if opt.PreferCVC {
 			s.procs = []*proc{cv, z3}
@@ -302,6 +301,19 @@ func (s *Solver) Check(extra *Term, wantModel bool, vars []*Term) (Result, map[s
 	sawError := false
 	for _, a := range plan {
 		p := a.p
+		if p.oneshot {
+			res, model := s.oneShotCVC5(extra, wantModel, vars, a.ms)
+			if res != Unknown {
+				s.Stats.BySolver[p.name]++
+				if res == Sat {
+					s.Stats.Sat++
+				} else {
+					s.Stats.Unsat++
+				}
+				return res, model
+			}
+			continue
+		}
 		if p.lazy != nil {
 			np, err := p.lazy()
 			p.lazy = nil
@@ -536,4 +548,57 @@ func (s *Solver) Script(extra *Term) string {
 	}
 	sb.WriteString("(check-sat)\n")
 	return sb.String()
+}
+
+func (s *Solver) oneShotCVC5(extra *Term, wantModel bool, vars []*Term, ms int) (Result, map[string]uint64) {
+	script := s.Script(extra)
+	script = strings.Replace(script, "(set-logic ALL)\n", "(set-logic ALL)\n(set-option :produce-models true)\n", 1)
+	var names []string
+	if wantModel {
+		seen := map[int]bool{}
+		var used []*Term
+		for _, f := range s.stack {
+			for _, t := range f.terms {
+				CollectVars(t, seen, &used)
+			}
+		}
+		if extra != nil {
+			CollectVars(extra, seen, &used)
+		}
+		usedSet := map[string]bool{}
+		for _, v := range used {
+			usedSet[v.Name] = true
+		}
+		for _, v := range vars {
+			if usedSet[v.Name] {
+				names = append(names, SymName(v.Name))
+			}
+		}
+		if len(names) > 0 {
+			script += "(get-value (" + strings.Join(names, " ") + "))\n"
+		}
+	}
+	cmd := exec.Command("cvc5", "--lang=smt2", "--solve-bv-as-int=sum", fmt.Sprintf("--tlimit=%d", ms))
+	cmd.Stdin = strings.NewReader(script)
+	out, _ := cmd.CombinedOutput()
+	text := string(out)
+	lines := strings.SplitN(text, "\n", 2)
+	if strings.Contains(text, "(error") {
+		fmt.Fprintf(os.Stderr, "solver cvc5: %s\n", strings.TrimSpace(text))
+		return Unknown, nil
+	}
+	switch strings.TrimSpace(lines[0]) {
+	case "unsat":
+		return Unsat, nil
+	case "sat":
+		model := map[string]uint64{}
+		if wantModel && len(names) > 0 && len(lines) > 1 {
+			if err := parseModel(strings.ReplaceAll(lines[1], "\n", " "), model); err != nil {
+				fmt.Fprintf(os.Stderr, "solver cvc5: model: %v\n", err)
+				return Unknown, nil
+			}
+		}
+		return Sat, model
+	}
+	return Unknown, nil
 }
